@@ -131,7 +131,17 @@ class Prop:
             for alt in desc["alts"]:
                 yield dict(kind="hist", univ=desc["univ"], ops=desc["setup"] + [alt])
             return
-        for h in mut.shrink_candidates(dict(univ=desc["univ"], ops=desc["ops"])):
+        ops = desc["ops"]
+        if any(o[0] == "iter_remove" for o in ops):
+            # mut.shrink_candidates does not know the expanded entry: truncate, and drop entries that allocate nothing
+            for cut in (len(ops) // 2, len(ops) - 1):
+                if 0 < cut < len(ops):
+                    yield dict(kind="hist", univ=desc["univ"], ops=ops[:cut])
+            for i in range(len(ops) - 1, -1, -1):
+                if ops[i][0] in ("remove", "remove_children", "move", "set_data", "rename", "sort", "meta", "filter", "del", "clear", "iter_remove"):
+                    yield dict(kind="hist", univ=desc["univ"], ops=ops[:i] + ops[i + 1:])
+            return
+        for h in mut.shrink_candidates(dict(univ=desc["univ"], ops=ops)):
             yield dict(kind="hist", univ=h["univ"], ops=h["ops"])
 
     def run(self, desc) -> Case:
